@@ -841,10 +841,15 @@ Section PVMachine.
         end
     end.
 
-  Fixpoint pvrun (w : pvworld) (ops : list pvop) : list (option (arr * Z)) :=
+  (* predictions, each with "a write through a handed-out memo entry has happened before" (only then may a
+     machine with the hand-out quirk answer `unknown`) *)
+  Fixpoint pvrun (w : pvworld) (fired : bool) (ops : list pvop) : list (option (arr * Z) * bool) :=
     match ops with
     | [] => []
-    | o :: r => let (w1, x) := pvstep w o in x :: pvrun w1 r
+    | o :: r =>
+        let (w1, x) := pvstep w o in
+        let f1 := fired || (hand && match o, snd w with PWrite _, Some _ => true | _, _ => false end) in
+        (x, f1) :: pvrun w1 f1 r
     end.
 End PVMachine.
 
@@ -857,17 +862,17 @@ Fixpoint pvf_of_table (t : pvtable) (fn : Z) (args : list arr) : option arr :=
       then Some r else pvf_of_table t' fn args
   end.
 
-Fixpoint pv_all_eqb (ps : list (option (arr * Z))) (ss : list (arr * Z)) : bool :=
+Fixpoint pv_all_eqb (ps : list (option (arr * Z) * bool)) (ss : list (arr * Z)) : bool :=
   match ps, ss with
   | [], [] => true
-  | p :: r, s :: t => obs_match false p s && pv_all_eqb r t
+  | p :: r, s :: t => obs_match (snd p) (fst p) s && pv_all_eqb r t
   | _, _ => false
   end.
 
 (* verdict: 0 = specification, 2 = stale delta conversions, 3 = memo entries handed out, 4 = both, 1 = unexplained *)
 Definition check_pv (c : pvtable * list pvop * list (arr * Z)) : Z :=
   let '(t, ops, seen) := c in
-  let go := fun sr h => pv_all_eqb (pvrun (pvf_of_table t) sr h ([], None) ops) seen in
+  let go := fun sr h => pv_all_eqb (pvrun (pvf_of_table t) sr h ([], None) false ops) seen in
   if go false false then 0
   else if go true false then 2
   else if go false true then 3
